@@ -65,6 +65,27 @@ def strategy(unit):
     return _case(unit)
 
 
+FUZZ_RUNS = 1500
+
+
+def fuzz_case(fdp):
+    """Decode a libFuzzer byte string into a case (coverage-guided secondary engine of the thorough tier)."""
+    J = fdp.ConsumeIntInRange(1, 4)
+    kinds = ['present', 'present'] + ABSENT
+    low = kinds[fdp.ConsumeIntInRange(0, 4)]
+    his = [kinds[fdp.ConsumeIntInRange(0, 4)] for _ in range(J)]
+    if low != 'present' and all(h != 'present' for h in his):
+        his[fdp.ConsumeIntInRange(0, J - 1)] = 'present'
+    rec = lambda: {'kind': core.RECIPE_KINDS[fdp.ConsumeIntInRange(0, len(core.RECIPE_KINDS) - 1)],   # noqa
+                   'seed': fdp.ConsumeIntInRange(0, 255), 'scale': [0, 0, 3, -3][fdp.ConsumeIntInRange(0, 3)]}
+    return {'biort': dtu.BIORTS[fdp.ConsumeIntInRange(0, 3)], 'qshift': dtu.QSHIFTS[fdp.ConsumeIntInRange(0, 5)], 'J': J,
+            'size': [fdp.ConsumeIntInRange(2, 20), fdp.ConsumeIntInRange(2, 20)],
+            'N': fdp.ConsumeIntInRange(1, 2), 'C': fdp.ConsumeIntInRange(1, 2),
+            'dtype': ['f64', 'f32'][fdp.ConsumeIntInRange(0, 1)], 'low': low, 'highs': his,
+            'filt_form': ['names', 'tuples'][fdp.ConsumeIntInRange(0, 1)], 'rx': rec(), 'rp': rec(),
+            'k': fdp.ConsumeIntInRange(0, 10**6)}
+
+
 def ambiguous(case):
     """KF-D9-ambiguous: some level t>=1 whose input lowpass had been padded to a
     multiple of 4 in the forward pyramid, with every finer level absent: the
